@@ -503,7 +503,7 @@ def run_workers(ck, fn, argslist):
 def run(ck):
     exe = ck.build("asan", ["vsrv"])["vsrv"]
     thorough = ck.tier == "thorough"
-    n = int((250 if thorough else 5) * ck.scale)
+    n = int((1200 if thorough else 5) * ck.scale)
     # the header tokenizer alone, every single cut: in-process, thousands of header blocks per second
     hdr = ck.build("asan", ["hdr_mon"])["hdr_mon"]
     sa.run_jobs(ck, [dict(exe=hdr, args=["--cases", int((60000 if thorough else 1500) * ck.scale), "--seed", sa.subseed(ck, 900 + i)], label="hdr%d" % i, timeout=7200) for i in range(4)], sets=("blocks",))
